@@ -227,28 +227,7 @@ func loopBodyOf(x ast.Node) *ast.BlockStmt {
 // with, entry keys only through a function that parses it to the key's type and renders it again.
 func rulePathKeyCanon(c *Ctx, r *Report) {
 	r.Rule("R-PATHKEY-CANON", "in ytypes' list lookups (retrieveNodeList, retrieveNodeOrderedList) a key string read from the gNMI path (`….GetKey()[k]`) is compared with non-constant strings, or stored for a later comparison, only after passing through a canonicaliser — a function from which both ytypes.StringToType and ygot.KeyValueAsString are reachable", 3)
-	strToType := c.Func("ytypes", "StringToType")
-	kvas := c.Func("ygot", "KeyValueAsString")
-	canonical := map[*FuncInfo]bool{}
-	isCanon := func(g *FuncInfo) bool {
-		if g == nil || strToType == nil || kvas == nil {
-			return false
-		}
-		if v, ok := canonical[g]; ok {
-			return v
-		}
-		a, b := false, false
-		for _, h := range c.astReach(g) {
-			if h.Obj == strToType.Obj {
-				a = true
-			}
-			if h.Obj == kvas.Obj {
-				b = true
-			}
-		}
-		canonical[g] = a && b && g.Obj != strToType.Obj
-		return canonical[g]
-	}
+	isCanon := c.isKeyCanonicaliser
 	for _, name := range []string{"retrieveNodeList", "retrieveNodeOrderedList"} {
 		f := c.MustFunc(r, "ytypes", name)
 		if f == nil {
@@ -261,7 +240,16 @@ func rulePathKeyCanon(c *Ctx, r *Report) {
 			if !ok {
 				return false
 			}
-			call, ok := ast.Unparen(ie.X).(*ast.CallExpr)
+			x := ast.Unparen(ie.X)
+			// a local that stands for the key map (`pathKeys := head.GetKey()`).
+			if id, ok := x.(*ast.Ident); ok {
+				if o := info.ObjectOf(id); o != nil {
+					if defs := allDefs(f, o); len(defs) == 1 {
+						x = ast.Unparen(defs[0])
+					}
+				}
+			}
+			call, ok := x.(*ast.CallExpr)
 			if !ok {
 				return false
 			}
@@ -348,4 +336,41 @@ func rawOrdinal(raw map[types.Object]token.Pos, o types.Object) int {
 		}
 	}
 	return k
+}
+
+// isKeyCanonicaliser: g parses a key string to the key's Go type and renders the value again — both
+// ytypes.StringToType and ygot.KeyValueAsString are reachable from it — and does nothing at the level
+// of strings itself (no call into package strings, no util.StripModulePrefix in its own body). Such a
+// function maps two strings to the same result only when they denote the same key value.
+func (c *Ctx) isKeyCanonicaliser(g *FuncInfo) bool {
+	strToType := c.Func("ytypes", "StringToType")
+	kvas := c.Func("ygot", "KeyValueAsString")
+	if g == nil || strToType == nil || kvas == nil || g.Obj == strToType.Obj {
+		return false
+	}
+	a, b := false, false
+	for _, h := range c.astReach(g) {
+		if h.Obj == strToType.Obj {
+			a = true
+		}
+		if h.Obj == kvas.Obj {
+			b = true
+		}
+	}
+	if !a || !b {
+		return false
+	}
+	stringLevel := false
+	ast.Inspect(g.Decl.Body, func(x ast.Node) bool {
+		if call, ok := x.(*ast.CallExpr); ok {
+			if fn := Callee(g.Info(), call); fn != nil {
+				full := FullName(fn)
+				if (fn.Pkg() != nil && fn.Pkg().Path() == "strings") || full == P("util")+".StripModulePrefix" || lossyFuncs[full] {
+					stringLevel = true
+				}
+			}
+		}
+		return true
+	})
+	return !stringLevel
 }
